@@ -14,6 +14,9 @@ F_HI = 8_000_000_000
 
 
 def drive(ctx):
+    from .. import gr
+
+    gr.replay(ctx)          # behaviours of the Session state machine, real objects threaded
     names = real_zone_names(ctx)
     synth = synth_zone_names(ctx)
     rnd = ctx.rnd
